@@ -87,12 +87,14 @@ pub fn gen_search(rng: &mut Rng, n: u64) -> SearchSpec {
         })
         .collect();
     let opts = if rng.chance(1, 2) {
-        let lim = |r: &mut Rng| match r.below(6) {
+        let lim = |r: &mut Rng| match r.below(7) {
             0 => 0,
             1 => 1,
             2 => 127,
             3 => 128,
             4 => i32::MAX,
+            // the octet boundaries of the INTEGER encoding
+            5 if r.bool() => *r.pick(&[255, 256, 511, 32_767, 32_768, 33_000, 40_000, 65_535, 65_536, 8_388_607, 8_388_608, 16_777_215, 16_777_216]),
             _ => r.below(100_000) as i32,
         };
         Some((rng.below(4) as u8, rng.bool(), lim(rng), lim(rng)))
